@@ -9,7 +9,7 @@
     an arbitrary state, hence about every history leading to it. *)
 From Coq Require Import List ZArith NArith Bool Arith.
 From BBS Require Import Common.Sx Common.ListX
-  Compose.Caching Compose.CachingProofs
+  Compose.Caching Compose.CachingProofs Compose.MonSilentCaching
   Compose.ExistenceCache Compose.ExistenceCacheProofs
   Compose.Replicators Compose.ReplicatorsProofs.
 Import ListNotations.
@@ -86,6 +86,98 @@ Example read_through_example :
   fst (cget (RDedup RLocal) 2 s) = 5.
 Proof. vm_compute. repeat split; reflexivity. Qed.
 
+(** ** Composite reads: GetFromComposite(parent p, child of p, slicer) through
+    either composite.  [cgfc r p] is GetFromCompositeWithBlobReplicator with
+    the composite's single-shot selector: the fast / primary backend [BA]
+    first; only on NOT_FOUND the replicator's ReplicateComposite, once -
+    noop: the source's GetFromComposite; local and the decorators: the
+    replicator's own ReplicateMultiple on {p} (the WHOLE parent is put into
+    the sink), then the child is read back from the sink, NOT_FOUND there
+    becoming INTERNAL.  The child is available iff the parent is held. *)
+
+(** "only if": every replicator stack, every fault sequence. *)
+Theorem composite_read_only_if_parent_held : forall r p s s1,
+  cgfc r p s = (0, s1) -> memb p (sa s) = true \/ memb p (sb s) = true.
+Proof. exact cgfc_sound. Qed.
+Print Assumptions composite_read_only_if_parent_held.
+
+(** "iff" when no backend call fails: the child's bytes whenever fast/primary
+    or slow/secondary holds the parent, NOT_FOUND only if neither does. *)
+Theorem composite_read_iff : forall r p s, (copying r = true \/ r = RNoop) -> fl s = [] ->
+  fst (cgfc r p s) = if memb p (sa s) || memb p (sb s) then 0 else 5.
+Proof. exact cgfc_complete_copying. Qed.
+Print Assumptions composite_read_iff.
+
+(** The same with "no call of this read failed" read off the recorded calls,
+    whatever faults were left to inject (the form the monitor uses). *)
+Theorem composite_read_iff_when_no_call_failed : forall r p s c s1, (copying r = true \/ r = RNoop) ->
+  cgfc r p s = (c, s1) -> unfaulted (lg s1) = true ->
+  c = if memb p (sa s) || memb p (sb s) then 0 else 5.
+Proof. exact cgfc_complete_unfaulted. Qed.
+Print Assumptions composite_read_iff_when_no_call_failed.
+
+(** After a successful composite read through anything but the bare
+    non-copying replicator the PARENT is in the fast / primary backend, under
+    every fault sequence ... *)
+Theorem composite_read_through_populates : forall r p s s1, r <> RNoop ->
+  cgfc r p s = (0, s1) -> memb p (sa s1) = true.
+Proof. exact cgfc_populates. Qed.
+Print Assumptions composite_read_through_populates.
+
+(** ... and a parent that only the slow / secondary backend holds IS read
+    through when no call fails: served, in the fast / primary backend
+    afterwards, the slow / secondary backend unchanged. *)
+Theorem composite_read_through_of_slow_only_parent : forall r p s, copying r = true -> fl s = [] ->
+  memb p (sa s) = false -> memb p (sb s) = true ->
+  fst (cgfc r p s) = 0 /\ memb p (sa (snd (cgfc r p s))) = true /\ sb (snd (cgfc r p s)) = sb s.
+Proof. exact cgfc_read_through. Qed.
+Print Assumptions composite_read_through_of_slow_only_parent.
+
+(** A backend failure other than NOT_FOUND at ANY call of the read surfaces
+    as an error ([l] = the calls this read added to the log), for composite
+    reads and for Get, every replicator stack, every fault sequence. *)
+Theorem composite_read_backend_failure_surfaces : forall r p s c s1, cgfc r p s = (c, s1) ->
+  exists l, lg s1 = l ++ lg s /\ (hard l = true -> c <> 0).
+Proof. exact cgfc_hard_fault_surfaces. Qed.
+Print Assumptions composite_read_backend_failure_surfaces.
+
+Theorem get_backend_failure_surfaces : forall r d s c s1, cget r d s = (c, s1) ->
+  exists l, lg s1 = l ++ lg s /\ (hard l = true -> c <> 0).
+Proof. exact cget_hard_fault_surfaces. Qed.
+Print Assumptions get_backend_failure_surfaces.
+
+(** Which backend name is put in front of the error: read caching none;
+    read fallback "Primary" ([1]) exactly for an error other than NOT_FOUND of
+    the primary's own answer, which is then the result. *)
+Theorem read_caching_adds_no_prefix : forall first final, read_pfx ReadCaching first final = 0.
+Proof. exact read_pfx_caching. Qed.
+Print Assumptions read_caching_adds_no_prefix.
+
+Theorem fallback_primary_prefix : forall r p s, step_pfx ReadFallback r (OGfc p) s = 1 <->
+  (fst (bgfc BA p s) <> 0 /\ fst (bgfc BA p s) <> 5).
+Proof. exact gfc_pfx_primary. Qed.
+Print Assumptions fallback_primary_prefix.
+
+Theorem composite_read_primary_error_is_result : forall r p s,
+  fst (bgfc BA p s) <> 5 -> fst (cgfc r p s) = fst (bgfc BA p s).
+Proof. exact gfc_primary_error_is_result. Qed.
+Print Assumptions composite_read_primary_error_is_result.
+
+(** Non-vacuity: parent 1 only in the slow backend, read through the
+    deduplicating local replicator: five backend calls, the parent is in the
+    fast backend afterwards; parent 0 only in the fast backend is served by
+    one call; a sink Put failing with UNAVAILABLE surfaces; so does a sink
+    that lost the parent between the copy and the read-back (INTERNAL). *)
+Example composite_read_example :
+  let s := mkst [0%nat] [1%nat] [] [] in
+  fst (cgfc (RDedup RLocal) 1 s) = 0 /\ sa (snd (cgfc (RDedup RLocal) 1 s)) = [0%nat; 1%nat] /\
+  length (lg (snd (cgfc (RDedup RLocal) 1 s))) = 5%nat /\
+  fst (cgfc (RDedup RLocal) 0 s) = 0 /\ length (lg (snd (cgfc (RDedup RLocal) 0 s))) = 1%nat /\
+  fst (cgfc RLocal 1 (mkst [0%nat] [1%nat] [0; 0; 14] [])) = 14 /\
+  fst (cgfc RLocal 1 (mkst [0%nat] [1%nat] [0; 0; 0; 5] [])) = 13 /\
+  fst (cgfc RLocal 2 s) = 5 /\ fst (cgfc RNoop 1 s) = 0 /\ sa (snd (cgfc RNoop 1 s)) = [0%nat].
+Proof. vm_compute. repeat split; reflexivity. Qed.
+
 (** ** Existence cache (Compose/ExistenceCache.v)
     [sound_hist] unfolds, along a history of decorator calls, direct cache
     calls, backend changes and clock advances, to: whatever a FindMissing /
@@ -105,6 +197,21 @@ Theorem existence_cache_transparent : forall size dur ds d1 d2 s,
                 e_ans ob = filter (fun d => negb (memn d (backend s))) asked.
 Proof. exact efm_transparent. Qed.
 Print Assumptions existence_cache_transparent.
+
+(** A composite read through the decorator is the backend's own (the child
+    iff the backend holds the parent), the backend is asked for exactly that
+    parent, the cache is neither consulted nor changed; a backend failure is
+    the result. *)
+Theorem existence_cache_composite_read_transparent : forall size dur p s,
+  let (ob, s') := estep size dur (EGfc p 0%Z) s in
+  e_code ob = (if memn p (backend s) then 0 else 5)%Z /\ e_call ob = Some [p] /\ e_clock ob = [] /\ s' = s.
+Proof. exact egfc_transparent. Qed.
+Print Assumptions existence_cache_composite_read_transparent.
+
+Theorem existence_cache_composite_read_failure_surfaces : forall size dur p f s,
+  f <> 0%Z -> e_code (fst (estep size dur (EGfc p f) s)) = f.
+Proof. exact egfc_failure_surfaces. Qed.
+Print Assumptions existence_cache_composite_read_failure_surfaces.
 
 (** Non-vacuity: size 1, duration 5.  Object 0 is recorded at time 0, hidden
     at time 5, asked again at time 6; recording object 1 evicts object 0. *)
@@ -243,8 +350,9 @@ Print Assumptions existence_cache_never_panics.
     hypothesis at all: decoders clamp, the monitors compare decoded values with
     values the model encoded itself, an existence cache of size 0 panics in the
     model at its first recording and the monitors do not judge panics - all
-    clauses (1-7, 11-13, 14) are silent on the model's output, which is the
-    only observation the judge accepts for these kinds.
+    clauses (1-10 and 15 - composites incl. composite reads -, 11-13 and 16 -
+    existence cache incl. composite reads -, 14) are silent on the model's
+    output, which is the only observation the judge accepts for these kinds.
     For kind 2, [run17] is the placeholder [L []] (there is no single model
     output); the statements about kind 2 follow below. *)
 From BBS Require Import Run.R17Conc Run.R17 Run.R17Proofs.
@@ -286,6 +394,47 @@ Example monitor_silent_examples :
   /\ (let inp := L [A 3; L [L [A 0; A 5]; L [A 0; A 7]; L [A 2]; L [A 1; A 5]; L [A 2]; L [A 3]; L [A 2]]] in
       run17 inp = L [L [A 5; A 7; A 5]] /\ agree17 inp (run17 inp) = true /\ mon17 inp (run17 inp) = []).
 Proof. exact (conj seq_example (conj ec_example lru_example)). Qed.
+
+(** Non-vacuity for the composite reads (GetFromComposite): read caching over
+    the deduplicating local replicator (from fast; read-through with five
+    backend calls, the parent in fast afterwards; failing sink Put; failing
+    fast backend; absent parent), read fallback with the "Primary" /
+    "Secondary" prefixes, and an existence cache whose FindMissing is answered
+    from the cache while the composite read is the backend's NOT_FOUND. *)
+Example monitor_silent_examples_composite_reads :
+  (let inp := L [A 0; A 0; L [A 2; A 0]; L [A 0]; L [A 1; A 2];
+                 L [L [A 3; A 0; L []]; L [A 3; A 1; L []]; L [A 3; A 1; L []]; L [A 3; A 2; L [A 0; A 0; A 0; A 14]];
+                    L [A 3; A 2; L [A 13]]; L [A 3; A 4; L []]]] in
+   map (fun o => sx_Z (sx_nth o 0)) (sx_list (run17 inp)) = [0; 0; 0; 14; 13; 5]
+   /\ map (fun o => length (sx_list (sx_nth o 2))) (sx_list (run17 inp)) = [1; 5; 1; 4; 1; 4]%nat
+   /\ sx_nth (sx_nth (run17 inp) 1) 3 = L [A 0; A 1]
+   /\ agree17 inp (run17 inp) = true /\ mon17 inp (run17 inp) = [])
+  /\ (let inp := L [A 0; A 1; A 0; L []; L [A 1];
+                 L [L [A 3; A 1; L [A 14]]; L [A 3; A 1; L [A 0; A 14]]; L [A 3; A 1; L [A 0; A 0; A 0; A 5]];
+                    L [A 0; A 1; L [A 5; A 2]]; L [A 3; A 1; L []]]] in
+      map (fun o => (sx_Z (sx_nth o 0), sx_Z (sx_nth o 5))) (sx_list (run17 inp)) = [(14, 1); (14, 2); (13, 2); (2, 2); (0, 0)]
+      /\ agree17 inp (run17 inp) = true /\ mon17 inp (run17 inp) = [])
+  /\ (let inp := L [A 1; A 1; A 5;
+                L [L [A 3; A 0]; L [A 0; L [A 0]; A 0; A 0; A 0]; L [A 4; A 0]; L [A 0; L [A 0]; A 1; A 0; A 0];
+                   L [A 5; A 0; A 0]; L [A 3; A 0]; L [A 5; A 0; A 0]; L [A 5; A 0; A 14]]] in
+      map (fun o => (sx_Z (sx_nth o 0), sx_nth o 2)) (sx_list (run17 inp)) =
+        [(0, L []); (0, L [L [A 0]]); (0, L []); (0, L [L []]); (5, L [L [A 0]]); (0, L []); (0, L [L [A 0]]); (14, L [L [A 0]])]
+      /\ agree17 inp (run17 inp) = true /\ mon17 inp (run17 inp) = []).
+Proof. exact seq_gfc_example. Qed.
+
+(** The monitor's clauses about composite reads DO fire on observations that
+    break them (it is not vacuously silent): read caching, parent 5 only in
+    the fast backend, answered NOT_FOUND after asking the slow backend
+    (clause 9); parent 3 only in the slow backend, served from there with the
+    fast backend still empty afterwards (clause 10) - the two observations
+    the real code produces when its composite read starts at the slow
+    backend. *)
+Example monitor_fires_on_bypassed_cache :
+  mon17 (L [A 0; A 0; A 0; L [A 5]; L []; L [L [A 3; A 5; L []]]])
+        (L [L [A 5; L []; L [L [A 1; A 3; L [A 5]; A 0]; L [A 1; A 0; L [A 5]; A 0]; L [A 0; A 1; L [A 5]; A 0]]; L [A 5]; L []; A 0]]) = [9]
+  /\ mon17 (L [A 0; A 0; A 0; L []; L [A 3]; L [L [A 3; A 3; L []]]])
+           (L [L [A 0; L []; L [L [A 1; A 3; L [A 3]; A 0]]; L []; L [A 3]; A 0]]) = [10].
+Proof. vm_compute. split; reflexivity. Qed.
 
 (** CONCURRENT case kind (2: deduplicating / concurrency-limiting / queued
     replicator under gated schedules).  The judge accepts a SET of
